@@ -62,7 +62,11 @@ def calculate_normal_3d(polygon):
         normal[0] += minus[1] * plus[2]
         normal[1] += minus[2] * plus[0]
         normal[2] += minus[0] * plus[1]
-    if near_zero(normal):
+    # The normal has the magnitude of twice the polygon's area, so it is compared
+    # with the squared extent of the polygon (an absolute tolerance rejects every
+    # small polygon).
+    extent = np.max(np.max(polygon, axis=0) - np.min(polygon, axis=0))
+    if extent == 0 or near_zero(normal / extent**2):
         raise ValueError("No normal found")
     else:
         return normal
